@@ -25,6 +25,7 @@ package policy
 //@ ..  && (forall k string :: setHas(ks, k) ==> keyOK(gitID, env, k) && creditedKeyIn(pr, ps, k))
 //@ ..  && setLen(ps) <= setLen(ks)
 //@ define credit(v *SignatureVerifier, gitID Hash, env *sslibdsse.Envelope, ps *set.Set[string], ks *set.Set[string]) bool = creditIn(v.principals, gitID, env, ps, ks)
+//@ spec accepted(pr []tuf.Principal, thr int, gitID Hash, env *sslibdsse.Envelope) bool
 //@ # metBy: some set of at least thr principals out of pr is credited for valid signatures with distinct keys
 //@ define metBy(pr []tuf.Principal, thr int, gitID Hash, env *sslibdsse.Envelope) bool = thr >= 1 && (exists ps *set.Set[string], ks *set.Set[string] :: creditIn(pr, gitID, env, ps, ks) && setLen(ps) >= thr)
 //@ define setsFresh(ps *set.Set[string], ks *set.Set[string]) bool = fresh(ps) && fresh(ks) && fresh(ps.contents) && fresh(ks.contents) && ps != ks && ps.contents != ks.contents
@@ -37,6 +38,9 @@ package policy
 //@   ensures thresholdMet: err == nil && !v.verifyExhaustively ==> r != nil && setLen(r) >= v.threshold && v.threshold >= 1
 //@   ensures successHasSet: err == nil ==> r != nil
 //@   ensures [C02,C05] met: err == nil && !v.verifyExhaustively ==> metBy(v.principals, v.threshold, gitObjectID, env)
+//@   # definition of the label accepted(...): "Verify succeeded for exactly these principals, threshold, object and
+//@   # envelope" (a heap-independent name for the event; what it means is the proved clauses above)
+//@   assumed err == nil && !v.verifyExhaustively ==> accepted(v.principals, v.threshold, gitObjectID, env)
 //@   ensures resultFresh: r != nil ==> fresh(r) && r.contents != nil && fresh(r.contents)
 //@   ensures resultTrusted: r != nil ==> forall s string :: setHas(r, s) ==> trustedID(v, s)
 //@   ensures unmetHasSet: errIs(err, ErrVerifierConditionsUnmet) ==> r != nil && setLen(r) < v.threshold
@@ -70,20 +74,17 @@ package policy
 //@     invariant pendingUnused: forall a :: rangeindex < a && a < len(acceptedKeys) ==> !setHas(usedKeyIDs, acceptedKeys[a].KeyID)
 
 //@ # ---- C12 / C16: applying staged policy ----
-//@ spec selfVerified(s *State) bool
+//@ # selfVerified(s): what State.Verify establishes (proved under C02 below)
+//@ define selfVerified(s *State) bool = accepted(rmRootPrincipals(rootOfState(s)), rmRootThreshold(rootOfState(s)), nil, s.Metadata.RootEnvelope) && (s.Metadata.TargetsEnvelope != nil ==> accepted(rmTargetsPrincipals(rootOfState(s)), rmTargetsThreshold(rootOfState(s)), nil, s.Metadata.TargetsEnvelope))
 //@ spec stateCommit(s *State) Hash
 //@ # consistent(ref): the reference and its latest log entry agree (both absent, or both present and equal)
 //@ define consistent(ref string) bool = (refSet[ref] <==> (refSet[rsl.Ref] && hasRefEntry(refTip[rsl.Ref], ref))) && (refSet[ref] ==> pTarget(cmsg(latestRefEntry(refTip[rsl.Ref], ref))) == refTip[ref])
 
-//@ func (*State).Verify -> (err)
-//@   trusted
-//@   pure
-//@   ensures err == nil ==> selfVerified(s)
 
 //@ func LoadCurrentState -> (st, err)
 //@   trusted
 //@   assigns ghost faults
-//@   ensures err == nil ==> st != nil && refSet[rsl.Ref] && hasRefEntry(refTip[rsl.Ref], ref) && stateCommit(st) == pTarget(cmsg(latestRefEntry(refTip[rsl.Ref], ref)))
+//@   ensures err == nil ==> st != nil && st.Metadata != nil && st.repository == repo && (isNil(st.loadedEntry) || notNil(st.loadedEntry)) && refSet[rsl.Ref] && hasRefEntry(refTip[rsl.Ref], ref) && stateCommit(st) == pTarget(cmsg(latestRefEntry(refTip[rsl.Ref], ref)))
 //@   ensures faults >= old(faults) && (faults > old(faults) ==> err != nil)
 
 //@ # Assumed for now: reconciliation keeps the policy reference, leaves both refs consistent with the log on success.
@@ -191,14 +192,28 @@ package policy
 //@ define ruleOK(r tuf.GlobalRule, target string, verified int, relax bool) bool = typeIs(r, tuf.GlobalRuleThreshold) && grMatches(r, target) ==> verified >= grThreshold(r) - ite(relax, 1, 0)
 //@ define rulesOK(rs []tuf.GlobalRule, n int, target string, verified int, relax bool) bool = forall j :: 0 <= j && j < n ==> ruleOK(rs[j], target, verified, relax)
 
-//@ func [C11,C05,C08] verifyGitObjectAndAttestations -> (name, rslNeeded, err)
+//@ # ---- C01 / C19: what a caller may conclude from one accepted change ----
+//@ # decided(...) is the label "verifyGitObjectAndAttestations accepted this target / object / authorization in this
+//@ # mode with this answer"; its meaning is the proved clauses of that function and of the functions below it
+//@ spec decided(policy *State, target string, gitID Hash, att *sslibdsse.Envelope, mergeable bool, rslNeeded bool) bool
+//@ # acceptedNormally(policy, target, object): decided in normal mode (no relaxation possible), whatever authorization was passed
+//@ spec acceptedNormally(policy *State, target string, gitID Hash) bool
+//@ define mergeableAsked(opts []verifyGitObjectAndAttestationsOption) bool = exists i :: 0 <= i && i < len(opts) && isOpt(opts[i], "withVerifyMergeable")
+//@ func [C11,C05,C08,C01,C19] verifyGitObjectAndAttestations -> (name, rslNeeded, err)
 //@   requires policy != nil && policy.repository != nil
 //@   requires noNilRules: forall(c, string, forall(j, has(policy.globalRules, c) && 0 <= j && j < len(policy.globalRules[c]) ==> notNil(policy.globalRules[c][j])))
 //@   requires noNilApps: forall(a, string, has(policy.GitHubApps, a) ==> notNil(policy.GitHubApps[a]))
 //@   assigns ghost faults, policy.verifiersCache, fresh(SignatureVerifier.*), fresh(elems *SignatureVerifier), fresh(elems tuf.Principal), fresh(map map[string][]*SignatureVerifier), fresh(set.Set[string].contents), fresh(map map[string]struct{}), fresh(elems gitobject.Option), fresh(elems sslibdsse.Verifier), fresh(elems sigstoreverifieropts.Option), fresh(elems string), fresh(verifyGitObjectAndAttestationsOptions.*), fresh(rsl.ReferenceEntry.*), fresh(rsl.AnnotationEntry.*), fresh(rsl.PropagationEntry.*), fresh(elems Hash), fresh(elems *rsl.AnnotationEntry), fresh(elems rsl.GetLatestReferenceUpdaterEntryOption), fresh(rsl.GetLatestReferenceUpdaterEntryOptions.*)
+//@   # the threshold relaxation of mergeability mode is never applied unless the caller asked for that mode
+//@   ensures [C01,C19] relaxOnlyIfAsked: rslNeeded ==> mergeableAsked(opts)
+//@   assumed err == nil && mergeableAsked(opts) ==> decided(policy, target, gitID, authorizationAttestation, true, rslNeeded)
+//@   assumed err == nil && !mergeableAsked(opts) ==> decided(policy, target, gitID, authorizationAttestation, false, rslNeeded)
+//@   assumed err == nil && !mergeableAsked(opts) ==> acceptedNormally(policy, target, gitID)
 //@   ensures [C11] globalThresholdsMet: err == nil && len(verifiers) != 0 && (options.trustedVerifier == "" || name != options.trustedVerifier) ==> forall c string :: has(policy.globalRules, c) ==> rulesOK(policy.globalRules[c], len(policy.globalRules[c]), target, verifiedPrincipalIDs, rslNeeded && options.verifyMergeable)
 //@   loop 1:
-//@     cut
+//@     # functional options: a closure made by withVerifyMergeable sets exactly that flag, the other option
+//@     # constructors do not touch it (assumed semantics of calls through function values)
+//@     assumeinv optionSemantics: options != nil && (options.verifyMergeable == (exists i :: 0 <= i && i <= rangeindex && isOpt(opts[i], "withVerifyMergeable")))
 //@   loop 2:
 //@     cut
 //@   loop 3:
@@ -264,9 +279,353 @@ package policy
 //@   requires s != nil && s.Metadata != nil && s.repository != nil && newPolicy != nil && newPolicy.Metadata != nil
 //@   requires noNilControllers: (forall k string :: has(s.ControllerMetadata, k) ==> s.ControllerMetadata[k] != nil) && (forall k string :: has(newPolicy.ControllerMetadata, k) ==> newPolicy.ControllerMetadata[k] != nil)
 //@   assigns ghost faults, fresh(SignatureVerifier.*), fresh(set.Set[string].contents), fresh(map map[string]struct{}), fresh(elems gitobject.Option), fresh(elems sslibdsse.Verifier), fresh(elems sigstoreverifieropts.Option)
-//@   ensures rootSignedByCurrentRoot: err == nil ==> metBy(rmRootPrincipals(rootOfState(s)), rmRootThreshold(rootOfState(s)), nil, newPolicy.Metadata.RootEnvelope)
+//@   ensures rootSignedByCurrentRoot: err == nil ==> accepted(rmRootPrincipals(rootOfState(s)), rmRootThreshold(rootOfState(s)), nil, newPolicy.Metadata.RootEnvelope)
 //@   ensures noRollback: err == nil ==> rootNoRollback(s.Metadata, newPolicy.Metadata) && primaryNoRollback(s.Metadata, newPolicy.Metadata) && (s.Metadata.TargetsEnvelope != nil ==> forall name string :: delegatedNoRollback(s.Metadata, newPolicy.Metadata, name))
 //@   ensures controllersNoRollback: err == nil ==> forall c string :: has(s.ControllerMetadata, c) && has(newPolicy.ControllerMetadata, c) ==> rootNoRollback(s.ControllerMetadata[c], newPolicy.ControllerMetadata[c]) && primaryNoRollback(s.ControllerMetadata[c], newPolicy.ControllerMetadata[c])
 //@   loop 1:
 //@     invariant done: forall c string :: visited(c) && has(newPolicy.ControllerMetadata, c) ==> rootNoRollback(s.ControllerMetadata[c], newPolicy.ControllerMetadata[c]) && primaryNoRollback(s.ControllerMetadata[c], newPolicy.ControllerMetadata[c])
-//@     invariant main: metBy(rmRootPrincipals(rootOfState(s)), rmRootThreshold(rootOfState(s)), nil, newPolicy.Metadata.RootEnvelope) && rootNoRollback(s.Metadata, newPolicy.Metadata) && primaryNoRollback(s.Metadata, newPolicy.Metadata) && (s.Metadata.TargetsEnvelope != nil ==> forall name string :: delegatedNoRollback(s.Metadata, newPolicy.Metadata, name))
+//@     invariant main: accepted(rmRootPrincipals(rootOfState(s)), rmRootThreshold(rootOfState(s)), nil, newPolicy.Metadata.RootEnvelope) && rootNoRollback(s.Metadata, newPolicy.Metadata) && primaryNoRollback(s.Metadata, newPolicy.Metadata) && (s.Metadata.TargetsEnvelope != nil ==> forall name string :: delegatedNoRollback(s.Metadata, newPolicy.Metadata, name))
+
+//@ # ---- C02: State.Verify - a state is internally consistent: root self-signed, primary rule file signed as the
+//@ # root says, every delegated rule file reached from a verified file and signed to the threshold of the rule that
+//@ # names it, no unreachable rule file ----
+//@ define rulesOfRole(s *State, role string) []tuf.Rule = tmRules(targetsMD(envOf(s.Metadata, role), false))
+//@ # r is a rule of a rule file present in the state (by the end of a successful Verify every such file has been
+//@ # reached and its signatures verified, or Verify fails with ErrDanglingDelegationMetadata)
+//@ define ruleOfState(s *State, r tuf.Rule) bool = exists role string, j int :: envOf(s.Metadata, role) != nil && 0 <= j && j < len(rulesOfRole(s, role)) && rulesOfRole(s, role)[j] == r
+//@ define signedPerRule(s *State, name string) bool = exists r tuf.Rule, ps []tuf.Principal :: rID(r) == name && ruleOfState(s, r) && accepted(ps, rThreshold(r), nil, s.Metadata.DelegationEnvelopes[name])
+//@ func ext:pkg/gitinterface.CloneAndFetchRepository -> (r, err)
+//@   trusted
+//@   assigns fresh(gitinterface.Repository.*)
+//@   ensures err == nil ==> r != nil && fresh(r)
+
+//@ define rootAndPrimaryOK(s *State) bool = accepted(rmRootPrincipals(rootOfState(s)), rmRootThreshold(rootOfState(s)), nil, s.Metadata.RootEnvelope) && accepted(rmTargetsPrincipals(rootOfState(s)), rmTargetsThreshold(rootOfState(s)), nil, s.Metadata.TargetsEnvelope)
+//@ define reachedOK(s *State, reached map[string]bool) bool = reached != nil && (forall name string :: has(reached, name) && reached[name] && has(s.Metadata.DelegationEnvelopes, name) ==> signedPerRule(s, name)) && (forall name string :: has(s.Metadata.DelegationEnvelopes, name) ==> has(reached, name))
+//@ func [C02] (*State).Verify -> (err)
+//@   requires s != nil && s.Metadata != nil && s.repository != nil
+//@   requires loadedEntryIsReal: isNil(s.loadedEntry) || notNil(s.loadedEntry)
+//@   # what the log reader returns for the propagation query is a propagation entry (its option semantics: C04); the
+//@   # upstream entry a propagation entry names is a reference-updater entry of the controller's log (input)
+//@   assumeafter GetLatestReferenceUpdaterEntry :: typeIs(r0, *rsl.PropagationEntry)
+//@   assumeafter rsl.GetEntry :: typeIs(r0, rsl.ReferenceUpdaterEntry)
+//@   assigns ghost faults, fresh(SignatureVerifier.*), fresh(set.Set[string].contents), fresh(map map[string]struct{}), fresh(elems gitobject.Option), fresh(elems sslibdsse.Verifier), fresh(elems sigstoreverifieropts.Option), fresh(elems string), fresh(elems tuf.Principal), fresh(elems tuf.Rule), fresh(map map[string]bool), fresh(map map[string]tuf.Principal), fresh(gitinterface.Repository.*), fresh(elems rsl.GetLatestReferenceUpdaterEntryOption)
+//@   ensures rootSelfSigned: err == nil ==> accepted(rmRootPrincipals(rootOfState(s)), rmRootThreshold(rootOfState(s)), nil, s.Metadata.RootEnvelope)
+//@   ensures primarySignedAsRootSays: err == nil && s.Metadata.TargetsEnvelope != nil ==> accepted(rmTargetsPrincipals(rootOfState(s)), rmTargetsThreshold(rootOfState(s)), nil, s.Metadata.TargetsEnvelope)
+//@   # every delegated rule file present in the state was reached from a verified file and its envelope meets the
+//@   # threshold of a rule of that name taken from a verified file (hence: no unreachable rule file)
+//@   ensures delegatedSignedAndReachable: err == nil && s.Metadata.TargetsEnvelope != nil ==> forall name string :: has(s.Metadata.DelegationEnvelopes, name) ==> signedPerRule(s, name)
+//@   loop 1:
+//@     cut
+//@   loop 2:
+//@     invariant fresh: reachedDelegations != nil && fresh(reachedDelegations)
+//@     invariant noneReached: forall k string :: has(reachedDelegations, k) ==> !reachedDelegations[k] && has(s.Metadata.DelegationEnvelopes, k)
+//@     invariant listed: forall k string :: visited(k) ==> has(reachedDelegations, k)
+//@   loop 3:
+//@     invariant shape: s.Metadata.TargetsEnvelope != nil && fresh(reachedDelegations) && delegationKeys != nil && fresh(delegationKeys)
+//@     invariant top: rootAndPrimaryOK(s)
+//@     invariant reached: reachedOK(s, reachedDelegations)
+//@     invariant queueNonNil: forall i :: 0 <= i && i < len(delegationsQueue) ==> notNil(delegationsQueue[i])
+//@     invariant queue: forall i :: 0 <= i && i < len(delegationsQueue) ==> ruleOfState(s, delegationsQueue[i])
+//@   loop 4:
+//@     # A-wfmeta: the principals a rule names are defined (in its own or an already visited rule file)
+//@     assumeinv definedPrincipals: forall k string :: setHas(rPrincipalIDs(delegation), k) ==> has(delegationKeys, k) && notNil(delegationKeys[k])
+//@     invariant nonNil: forall i :: 0 <= i && i < len(principals) ==> notNil(principals[i])
+//@   loop 5:
+//@     invariant shape: delegationKeys != nil && fresh(delegationKeys)
+//@   loop 6:
+//@     invariant allReached: forall k string :: visited(k) ==> reachedDelegations[k]
+//@   loop 7:
+//@     cut
+
+//@ # ---- C02: LoadState - the state used to judge entries is trusted: every policy state between the first one
+//@ # (trusted on first use, or pinned by the caller) and the requested one was accepted by the state before it ----
+//@ # the derived tables of a loaded state hold real rules / apps (built by preprocess from the decoded metadata)
+//@ define policyUsable(st *State) bool = (forall(c, string, forall(j, has(st.globalRules, c) && 0 <= j && j < len(st.globalRules[c]) ==> notNil(st.globalRules[c][j])))) && (forall(a, string, has(st.GitHubApps, a) ==> notNil(st.GitHubApps[a])))
+//@ define noNilControllers(st *State) bool = forall k string :: has(st.ControllerMetadata, k) ==> st.ControllerMetadata[k] != nil
+//@ define acceptedBy(p *State, n *State) bool = accepted(rmRootPrincipals(rootOfState(p)), rmRootThreshold(rootOfState(p)), nil, n.Metadata.RootEnvelope) && rootNoRollback(p.Metadata, n.Metadata) && primaryNoRollback(p.Metadata, n.Metadata) && (p.Metadata.TargetsEnvelope != nil ==> forall name string :: delegatedNoRollback(p.Metadata, n.Metadata, name))
+//@ func ext:(internal/policy.searcher).FindFirstPolicyEntry -> (e, err)
+//@   trusted
+//@   assigns ghost faults
+//@   ensures err == nil ==> notNil(e)
+//@   ensures err != nil ==> isNil(e)
+//@ func ext:(internal/policy.searcher).FindPolicyEntriesInRange -> (es, err)
+//@   trusted
+//@   assigns ghost faults, fresh(elems rsl.ReferenceUpdaterEntry)
+//@   # the range includes its first entry (assumed here; the searcher refinement is C08)
+//@   ensures err == nil ==> len(es) >= 1 && (forall i :: 0 <= i && i < len(es) ==> notNil(es[i]))
+//@   ensures err == nil ==> forall i :: 0 <= i && i < len(es) - 1 ==> notNil(es[1:][i])
+//@ func newSearcher -> (r)
+//@   trusted
+//@   assigns ghost faults
+//@   ensures notNil(r)
+//@ func loadStateForEntry -> (st, err)
+//@   trusted
+//@   assigns ghost faults, fresh(State.*), fresh(StateMetadata.*)
+//@   ensures err == nil ==> st != nil && fresh(st) && st.Metadata != nil && fresh(st.Metadata) && st.repository == repo && st.loadedEntry == entry && noNilControllers(st) && policyUsable(st)
+//@   ensures err == nil ==> entry.GetRefName() == PolicyRef || entry.GetRefName() == PolicyStagingRef
+
+//@ func [C02] LoadState -> (st, err)
+//@   requires repo != nil && notNil(requestedEntry)
+//@   # the principals a caller pins are real principals (caller input)
+//@   assumecall SignatureVerifier).Verify :: pinnedPrincipals: noNilPs(options.InitialRootPrincipals)
+//@   assigns ghost faults, fresh(State.*), fresh(StateMetadata.*), fresh(policyopts.LoadStateOptions.*), fresh(SignatureVerifier.*), fresh(set.Set[string].contents), fresh(map map[string]struct{}), fresh(elems gitobject.Option), fresh(elems sslibdsse.Verifier), fresh(elems sigstoreverifieropts.Option), fresh(elems string), fresh(elems tuf.Principal), fresh(elems tuf.Rule), fresh(map map[string]bool), fresh(map map[string]tuf.Principal), fresh(gitinterface.Repository.*), fresh(elems rsl.GetLatestReferenceUpdaterEntryOption), fresh(elems rsl.ReferenceUpdaterEntry)
+//@   ensures loaded: err == nil ==> st != nil && st.Metadata != nil && st.repository == repo && notNil(st.loadedEntry) && policyUsable(st)
+//@   # the first policy state is returned only after the internal consistency check and, when the caller pins root
+//@   # principals, only if all of them signed its root
+//@   ensures firstStateSelfVerified: err == nil && notNil(firstPolicyEntry) && firstPolicyEntry.GetID() == requestedEntry.GetID() ==> selfVerified(st)
+//@   ensures firstStatePinned: err == nil && notNil(firstPolicyEntry) && firstPolicyEntry.GetID() == requestedEntry.GetID() && len(options.InitialRootPrincipals) != 0 ==> accepted(options.InitialRootPrincipals, len(options.InitialRootPrincipals), nil, st.Metadata.RootEnvelope)
+//@   # a later policy state (loaded for another entry value than the one passed in: the walk's own) passed the
+//@   # internal consistency check and was accepted (root signed by a threshold of the previous root's principals,
+//@   # nothing rolled back) by the state verified just before it; the invariant of loop 2 says the same of every
+//@   # intermediate state
+//@   ensures laterStateVerified: err == nil && st.loadedEntry != requestedEntry ==> selfVerified(st) && (st == lastPrev || acceptedBy(lastPrev, st))
+//@   loop 1:
+//@     cut
+//@   loop 2:
+//@     ghost lastPrev *State = initialPolicyState step verifiedState
+//@     invariant shape: verifiedState != nil && verifiedState.Metadata != nil && verifiedState.repository == repo && noNilControllers(verifiedState) && notNil(verifiedState.loadedEntry) && policyUsable(verifiedState)
+//@     invariant step: verifiedState == lastPrev || acceptedBy(lastPrev, verifiedState)
+//@     invariant entries: forall i :: 0 <= i && i < len(allPolicyEntries) - 1 ==> notNil(allPolicyEntries[1:][i])
+
+//@ # ---- C06: the rules consulted for a path are those of the documented delegation walk ----
+//@ # (queries use the migrated form of every rule file)
+//@ define rulesM(s *State, role string) []tuf.Rule = tmRules(targetsMD(envOf(s.Metadata, role), true))
+//@ # g is a suffix of the slice full (same backing array, same end)
+//@ define isSuffix(g []tuf.Rule, full []tuf.Rule) bool = smt("(and (= (slc_arr %1) (slc_arr %2)) (= (+ (slc_off %1) (slc_len %1)) (+ (slc_off %2) (slc_len %2))) (>= (slc_off %1) (slc_off %2)))", bool, g, full)
+//@ # every pending group is the not yet consulted tail of the rules of a rule file of the state
+//@ define groupOK(s *State, g []tuf.Rule) bool = (exists role string :: envOf(s.Metadata, role) != nil && isSuffix(g, rulesM(s, role))) && (forall i :: 0 <= i && i < len(g) ==> notNil(g[i]))
+//@ # v stands for a rule that matches the path and is the head of a tail of length > 1 of the rules of a rule file of
+//@ # the state (so: a rule of that file other than the trailing allow rule), with that rule's own name and threshold
+//@ define consultedRule(s *State, path string, v *SignatureVerifier) bool = v != nil && v.repository == s.repository && !v.verifyExhaustively && (exists role string, g []tuf.Rule :: envOf(s.Metadata, role) != nil && isSuffix(g, rulesM(s, role)) && len(g) > 1 && rMatches(g[0], path) && v.name == rID(g[0]) && v.threshold == rThreshold(g[0]))
+//@ func [C06] (*State).findVerifiersForPathIfProtected -> (vs, err)
+//@   requires s != nil && s.Metadata != nil
+//@   assigns fresh(SignatureVerifier.*), fresh(elems *SignatureVerifier), fresh(elems tuf.Principal), fresh(elems tuf.Rule), fresh(elems []tuf.Rule), fresh(elems string), fresh(map map[string]bool), fresh(map map[string]tuf.Principal)
+//@   ensures noPolicy: s.Metadata.TargetsEnvelope == nil ==> err == ErrMetadataNotFound
+//@   ensures onlyMatchingRules: err == nil ==> forall i :: 0 <= i && i < len(vs) ==> consultedRule(s, path, vs[i])
+//@   # a delegated rule file is entered only through a matching rule that names it
+//@   ensures enteredThroughMatchingRule: err == nil ==> forall role string :: has(seenRoles, role) && seenRoles[role] && role != TargetsRoleName ==> (exists i :: 0 <= i && i < len(vs) && vs[i].name == role)
+//@   ensures usable: err == nil ==> forall i :: 0 <= i && i < len(vs) ==> noNilPrincipals(vs[i]) && vs[i].name != ""
+//@   loop 1:
+//@     invariant shape: s.Metadata.TargetsEnvelope != nil && seenRoles != nil && fresh(seenRoles) && allPrincipals != nil && fresh(allPrincipals)
+//@     invariant groups: forall g :: 0 <= g && g < len(groupedDelegations) ==> groupOK(s, groupedDelegations[g])
+//@     invariant consulted: forall i :: 0 <= i && i < len(verifiers) ==> consultedRule(s, path, verifiers[i])
+//@     invariant freshVerifiers: forall i :: 0 <= i && i < len(verifiers) ==> verifiers[i] != nil && fresh(verifiers[i])
+//@     invariant usable: forall i :: 0 <= i && i < len(verifiers) ==> noNilPrincipals(verifiers[i])
+//@     invariant named: forall i :: 0 <= i && i < len(verifiers) ==> verifiers[i].name != ""
+//@     invariant entered: forall role string :: has(seenRoles, role) && seenRoles[role] && role != TargetsRoleName ==> (exists i :: 0 <= i && i < len(verifiers) && verifiers[i].name == role)
+//@   loop 2:
+//@     # A-wfmeta: rules have names
+//@     assumeinv namedRules: forall r tuf.Rule :: rID(r) != ""
+//@     invariant shape: s.Metadata.TargetsEnvelope != nil && seenRoles != nil && fresh(seenRoles) && allPrincipals != nil && fresh(allPrincipals)
+//@     invariant groups: forall g :: 0 <= g && g < len(groupedDelegations) ==> groupOK(s, groupedDelegations[g])
+//@     invariant current: groupOK(s, currentDelegationGroup)
+//@     invariant consulted: forall i :: 0 <= i && i < len(verifiers) ==> consultedRule(s, path, verifiers[i])
+//@     invariant freshVerifiers: forall i :: 0 <= i && i < len(verifiers) ==> verifiers[i] != nil && fresh(verifiers[i])
+//@     invariant usable: forall i :: 0 <= i && i < len(verifiers) ==> noNilPrincipals(verifiers[i])
+//@     invariant named: forall i :: 0 <= i && i < len(verifiers) ==> verifiers[i].name != ""
+//@     invariant entered: forall role string :: has(seenRoles, role) && seenRoles[role] && role != TargetsRoleName ==> (exists i :: 0 <= i && i < len(verifiers) && verifiers[i].name == role)
+//@   loop 3:
+//@     # A-wfmeta: the principals a rule names are defined (in its own or an already visited rule file)
+//@     assumeinv definedPrincipals: forall k string :: setHas(rPrincipalIDs(delegation), k) ==> has(allPrincipals, k) && notNil(allPrincipals[k])
+//@     invariant building: verifier != nil && fresh(verifier) && verifier.repository == s.repository && !verifier.verifyExhaustively && verifier.name == rID(delegation) && verifier.threshold == rThreshold(delegation) && noNilPrincipals(verifier)
+//@     invariant notYetListed: forall i :: 0 <= i && i < len(verifiers) ==> verifiers[i] != verifier
+//@     invariant usable: forall i :: 0 <= i && i < len(verifiers) ==> noNilPrincipals(verifiers[i])
+//@   loop 4:
+//@     invariant shape: allPrincipals != nil && fresh(allPrincipals)
+
+//@ # ---- C01 / C09 / C10: deciding one recorded entry ----
+//@ define gitTarget(ref string) string = gitReferenceRuleScheme + (":" + ref)
+//@ define fileTarget(path string) string = fileRuleScheme + (":" + path)
+//@ define isGittufManaged(ref string) bool = ref == PolicyRef || ref == attestations.Ref
+//@ func ext:internal/attestations.LoadAttestationsForEntry -> (a, err)
+//@   trusted
+//@   assigns ghost faults, fresh(attestations.Attestations.*)
+//@   ensures err == nil ==> a != nil
+
+//@ func [C01,C09] getApproverAttestationAndKeyIDsForIndex -> (att, approvers, err)
+//@   requires policy != nil && policy.repository != nil && repo != nil
+//@   requires noNilApps: forall(a, string, has(policy.GitHubApps, a) ==> notNil(policy.GitHubApps[a]))
+//@   assigns ghost faults, fresh(SignatureVerifier.*), fresh(set.Set[string].contents), fresh(map map[string]struct{}), fresh(elems gitobject.Option), fresh(elems sslibdsse.Verifier), fresh(elems sigstoreverifieropts.Option), fresh(elems tuf.Principal), fresh(elems string)
+//@   ensures noAttestations: attestationsState == nil ==> att == nil && approvers == nil && err == nil
+//@   # the authorization used is one whose signed statement names exactly (reference, from, to)
+//@   ensures authNamesExactChange: err == nil && att != nil ==> authNamesChange(att, targetRef, fromID.String(), toID.String())
+//@   ensures tagsHaveNoCodeReview: err == nil && isTag && attestationsState != nil ==> approvers != nil && setLen(approvers) == 0
+//@   # A-json: an approval statement signed by the trusted app decodes to a predicate with an approver list
+//@   assumeafter encoding/json.Unmarshal :: decodedApproval: stmt.Predicate != nil && stmt.Predicate.Approvers != nil
+//@   loop 1:
+//@     invariant set: approverIdentities != nil && fresh(approverIdentities) && approverIdentities.contents != nil && fresh(approverIdentities.contents)
+//@     invariant tagsNone: isTag ==> setLen(approverIdentities) == 0
+//@   loop 2:
+//@     # A-wfmeta: the principals an app entry names are defined
+//@     assumeinv definedPrincipals: forall i :: 0 <= i && i < len(appPrincipals) ==> notNil(appPrincipals[i])
+//@     invariant set: approverIdentities != nil && fresh(approverIdentities) && approverIdentities.contents != nil && fresh(approverIdentities.contents) && !isTag
+//@   loop 3:
+//@     invariant set: approverIdentities != nil && fresh(approverIdentities) && approverIdentities.contents != nil && fresh(approverIdentities.contents) && !isTag
+
+//@ func [C01,C09] getApproverAttestationAndKeyIDs -> (att, approvers, err)
+//@   requires entry != nil && policy != nil && policy.repository != nil && repo != nil
+//@   requires noNilApps: forall(a, string, has(policy.GitHubApps, a) ==> notNil(policy.GitHubApps[a]))
+//@   assigns ghost faults, fresh(SignatureVerifier.*), fresh(set.Set[string].contents), fresh(map map[string]struct{}), fresh(elems gitobject.Option), fresh(elems sslibdsse.Verifier), fresh(elems sigstoreverifieropts.Option), fresh(elems tuf.Principal), fresh(elems string), fresh(rsl.ReferenceEntry.*), fresh(rsl.AnnotationEntry.*), fresh(rsl.PropagationEntry.*), fresh(elems Hash), fresh(elems *rsl.AnnotationEntry), fresh(elems rsl.GetLatestReferenceUpdaterEntryOption), fresh(rsl.GetLatestReferenceUpdaterEntryOptions.*)
+//@   ensures noAttestations: attestationsState == nil ==> att == nil && approvers == nil && err == nil
+//@   # the authorization counted for an entry names that entry's reference and exactly the state the entry records:
+//@   # the tree of its commit, or for a tag the object the tag points to
+//@   ensures authNamesEntryChange: err == nil && att != nil ==> (exists from string :: authNamesChange(att, entry.RefName, from, hexstr(ite(strings.HasPrefix(entry.RefName, gitinterface.TagRefPrefix), tagTarget(entry.TargetID), ctree(entry.TargetID)))))
+
+//@ # pathsAccepted(policy, c): every path commit c changes was accepted, verbatim, for c in normal mode
+//@ define pathsAccepted(policy *State, c Hash) bool = forall q :: 0 <= q && q < cpLen(c) ==> acceptedNormally(policy, fileTarget(cpAt(c, q)), c)
+//@ define introducedFrom(cs []githash.Hash, n Hash, o Hash) bool = len(cs) == cbLen(n, o) && (forall k :: 0 <= k && k < len(cs) ==> cs[k] == cbAt(n, o, k))
+//@ func [C01,C10] getCommits -> (cs, err)
+//@   requires entry != nil && repo != nil
+//@   assigns ghost faults, fresh(rsl.ReferenceEntry.*), fresh(rsl.AnnotationEntry.*), fresh(rsl.PropagationEntry.*), fresh(elems Hash), fresh(elems githash.Hash), fresh(elems *rsl.AnnotationEntry), fresh(elems rsl.GetLatestReferenceUpdaterEntryOption), fresh(rsl.GetLatestReferenceUpdaterEntryOptions.*)
+//@   # all commits the entry introduces: everything reachable from its target but not from some earlier recorded state
+//@   ensures introduced: err == nil ==> (exists o Hash :: introducedFrom(cs, entry.TargetID, o))
+
+//@ func [C01,C09,C10] verifyEntry -> (err)
+//@   requires entry != nil && policy != nil && policy.repository != nil && repo != nil
+//@   requires noNilRules: forall(c, string, forall(j, has(policy.globalRules, c) && 0 <= j && j < len(policy.globalRules[c]) ==> notNil(policy.globalRules[c][j])))
+//@   requires noNilApps: forall(a, string, has(policy.GitHubApps, a) ==> notNil(policy.GitHubApps[a]))
+//@   assigns ghost faults, policy.verifiersCache, fresh(SignatureVerifier.*), fresh(elems *SignatureVerifier), fresh(elems tuf.Principal), fresh(map map[string][]*SignatureVerifier), fresh(set.Set[string].contents), fresh(map map[string]struct{}), fresh(elems gitobject.Option), fresh(elems sslibdsse.Verifier), fresh(elems sigstoreverifieropts.Option), fresh(elems string), fresh(verifyGitObjectAndAttestationsOptions.*), fresh(rsl.ReferenceEntry.*), fresh(rsl.AnnotationEntry.*), fresh(rsl.PropagationEntry.*), fresh(elems Hash), fresh(elems *rsl.AnnotationEntry), fresh(elems rsl.GetLatestReferenceUpdaterEntryOption), fresh(rsl.GetLatestReferenceUpdaterEntryOptions.*), fresh(elems verifyGitObjectAndAttestationsOption)
+//@   # a branch entry is accepted only if its reference namespace was decided for the entry's own signature, never in
+//@   # mergeability mode and never with the "recorder's signature still due" relaxation
+//@   assumed err == nil ==> entryOK(policy, attestationsState, entry)
+//@   ensures namespaceDecided: err == nil && !isGittufManaged(entry.RefName) && !strings.HasPrefix(entry.RefName, gitinterface.TagRefPrefix) ==> (exists att *sslibdsse.Envelope :: decided(policy, gitTarget(entry.RefName), entry.ID, att, false, false))
+//@   # with file rules in force, every path changed by every commit the entry introduces was decided, verbatim, for
+//@   # that commit
+//@   ensures commitsAreIntroduced: err == nil && !isGittufManaged(entry.RefName) && !strings.HasPrefix(entry.RefName, gitinterface.TagRefPrefix) && policy.hasFileRule ==> (exists o Hash :: introducedFrom(commitIDs, entry.TargetID, o))
+//@   ensures everyChangedPathDecided: err == nil && !isGittufManaged(entry.RefName) && !strings.HasPrefix(entry.RefName, gitinterface.TagRefPrefix) && policy.hasFileRule ==> forall k :: 0 <= k && k < len(commitIDs) ==> pathsAccepted(policy, commitIDs[k])
+//@   loop 1:
+//@     invariant commitsDone: forall k :: 0 <= k && k <= rangeindex ==> pathsAccepted(policy, commitIDs[k])
+//@     invariant shape: policy.hasFileRule
+//@   loop 2:
+//@     invariant pathsAre: len(paths) == cpLen(commitID) && (forall q :: 0 <= q && q < len(paths) ==> paths[q] == cpAt(commitID, q))
+//@     invariant pathsDone: forall q :: 0 <= q && q <= rangeindex ==> acceptedNormally(policy, fileTarget(cpAt(commitID, q)), commitID)
+
+//@ # ---- C01: the entry points choose the range and report the tip ----
+//@ # rangeVerified(first, last, ref): label "VerifyRelativeForRef accepted the log between these two entries for ref"
+//@ spec rangeVerified(first Hash, last Hash, ref string) bool
+//@ func [C01,C02,C07,C08] (*PolicyVerifier).VerifyRelativeForRef -> (err)
+//@   requires v != nil && v.repo != nil && notNil(v.searcher) && notNil(firstEntry) && notNil(lastEntry) && (v.persistentCacheEnabled ==> v.persistentCache != nil)
+//@   assigns ghost faults, ghost refTip, ghost refSet, ghost objSet, all(State.verifiersCache), all(cache.Persistent.PolicyEntries), all(cache.Persistent.AttestationEntries), all(cache.Persistent.AddedAttestationsBeforeNumber), all(cache.Persistent.LastVerifiedEntryForRef), fresh(elems cache.RSLEntryIndex), fresh(map map[string]cache.RSLEntryIndex), fresh(elems gitstore.TreeEntry), fresh(State.*), fresh(StateMetadata.*), fresh(policyopts.LoadStateOptions.*), fresh(attestations.Attestations.*), fresh(SignatureVerifier.*), fresh(elems *SignatureVerifier), fresh(elems tuf.Principal), fresh(elems tuf.Rule), fresh(map map[string][]*SignatureVerifier), fresh(map map[string]bool), fresh(map map[string]tuf.Principal), fresh(gitinterface.Repository.*), fresh(set.Set[string].contents), fresh(map map[string]struct{}), fresh(elems gitobject.Option), fresh(elems sslibdsse.Verifier), fresh(elems sigstoreverifieropts.Option), fresh(elems string), fresh(verifyGitObjectAndAttestationsOptions.*), fresh(rsl.ReferenceEntry.*), fresh(rsl.AnnotationEntry.*), fresh(rsl.PropagationEntry.*), fresh(elems Hash), fresh(elems *rsl.AnnotationEntry), fresh(elems rsl.GetLatestReferenceUpdaterEntryOption), fresh(rsl.GetLatestReferenceUpdaterEntryOptions.*), fresh(elems verifyGitObjectAndAttestationsOption), fresh(elems rsl.ReferenceUpdaterEntry), fresh(map map[string][]*rsl.AnnotationEntry), fresh(elems *rsl.ReferenceEntry)
+//@   assumed err == nil ==> rangeVerified(firstEntry.GetID(), lastEntry.GetID(), target)
+//@   # C08: verification moves no reference other than the local cache reference
+//@   ensures [C08] onlyCacheRefMoves: forall r string :: r != cache.Ref ==> refTip[r] == old(refTip[r]) && refSet[r] == old(refSet[r])
+//@   loop 1:
+//@     # values at the start of the iteration that is being completed (ghosts step at the back edge)
+//@     ghost polBefore *State = currentPolicy step currentPolicy
+//@     ghost attBefore *attestations.Attestations = currentAttestations step currentAttestations
+//@     ghost head rsl.ReferenceUpdaterEntry = nil step ite(isNil(invalidEntry), entries[0], nil)
+//@     ghost wasInvalid rsl.ReferenceUpdaterEntry = nil step invalidEntry
+//@     invariant shape: (forall i :: 0 <= i && i < len(entries) ==> notNil(entries[i])) && (forall k string :: has(annotations, k) ==> rsl.noNil(annotations[k])) && (currentPolicy != nil ==> stateUsable(currentPolicy)) && (isNil(invalidEntry) || (notNil(invalidEntry) && typeIs(invalidEntry, *rsl.ReferenceEntry)))
+//@     invariant [C08] refsKept: forall r string :: refTip[r] == old(refTip[r]) && refSet[r] == old(refSet[r])
+//@     # C01: an entry that needs a decision leaves the head of the queue only decided under the policy and attestation
+//@     # state in force when it was met - or as the revoked violation whose repair the next iteration must find (C07)
+//@     invariant [C01,C07] entryDecidedOrRevoked: needsDecision(head) ==> (isNil(invalidEntry) ==> polBefore != nil && entryOK(polBefore, attBefore, as(head, *rsl.ReferenceEntry))) && (notNil(invalidEntry) ==> invalidEntry == head && rsl.skippedBy(as(head, *rsl.ReferenceEntry), annsOf(annotations, as(head, *rsl.ReferenceEntry))))
+//@     # C02: the policy in force changes only to the state of a policy entry met in the walk, accepted by the state it replaces
+//@     invariant [C01,C02] policySwitchVerified: currentPolicy != polBefore ==> currentPolicy != nil && notNil(head) && currentPolicy.loadedEntry == head && (polBefore == nil || acceptedBy(polBefore, currentPolicy))
+//@     invariant [C01] onlyRecoveryEndsRecovery: notNil(wasInvalid) ==> isNil(invalidEntry) && isNil(head)
+//@   loop 2:
+//@     ghost e0 []rsl.ReferenceUpdaterEntry = entries step e0
+//@     invariant shape: notNil(invalidEntry) && typeIs(invalidEntry, *rsl.ReferenceEntry) && !fixed && (forall i :: 0 <= i && i < len(entries) ==> notNil(entries[i])) && (forall i :: 0 <= i && i < len(newEntryQueue) ==> notNil(newEntryQueue[i])) && (forall k string :: has(annotations, k) ==> rsl.noNil(annotations[k])) && (currentPolicy != nil ==> stateUsable(currentPolicy)) && (forall i :: 0 <= i && i < len(invalidIntermediateEntries) ==> invalidIntermediateEntries[i] != nil)
+//@     invariant [C08] refsKept: forall r string :: refTip[r] == old(refTip[r]) && refSet[r] == old(refSet[r])
+//@     invariant remaining: smt("(and (= (slc_arr %1) (slc_arr %2)) (= (+ (slc_off %1) (slc_len %1)) (+ (slc_off %2) (slc_len %2))) (>= (slc_off %1) (slc_off %2)))", bool, entries, e0)
+//@     # C07: every entry for the affected reference passed over while looking for the repair is marked skipped, or is
+//@     # remembered as an unrevoked intermediate (which makes verification fail)
+//@     invariant [C07] passedOverAreRevoked: forall i :: 0 <= i && i < len(e0) - len(entries) && typeIs(e0[i], *rsl.ReferenceEntry) && as(e0[i], *rsl.ReferenceEntry).RefName == invalidEntry.GetRefName() ==> rsl.skippedBy(as(e0[i], *rsl.ReferenceEntry), annsOf(annotations, as(e0[i], *rsl.ReferenceEntry))) || (exists q :: 0 <= q && q < len(invalidIntermediateEntries) && invalidIntermediateEntries[q] == as(e0[i], *rsl.ReferenceEntry))
+//@     # C07: entries for other references (and propagation entries) met on the way are kept for processing afterwards
+//@     invariant [C07] othersKept: forall i :: 0 <= i && i < len(e0) - len(entries) && (e0[i].GetRefName() != invalidEntry.GetRefName() || typeIs(e0[i], *rsl.PropagationEntry)) ==> (exists q :: 0 <= q && q < len(newEntryQueue) && newEntryQueue[q] == e0[i])
+//@ func ext:pkg/rsl.GetFirstReferenceUpdaterEntryForRef -> (e, anns, err)
+//@   trusted
+//@   assigns ghost faults
+//@   ensures err == nil ==> notNil(e) && e.GetRefName() == targetRef
+//@   ensures err != nil ==> isNil(e)
+//@ func loadRSLReferenceUpdaterEntry -> (e, err)
+//@   trusted
+//@   assigns ghost faults
+//@   ensures err == nil ==> notNil(e) && e.GetID() == entryID
+//@   ensures err != nil ==> isNil(e)
+//@ define latestFor(ref string) Hash = latestRefEntry(refTip[rsl.Ref], ref)
+
+//@ func [C01] (*PolicyVerifier).VerifyRef -> (tip, err)
+//@   requires v != nil && v.repo != nil
+//@   assigns ghost faults, ghost refTip, ghost refSet, ghost objSet, fresh(rsl.ReferenceEntry.*), fresh(rsl.AnnotationEntry.*), fresh(rsl.PropagationEntry.*), fresh(elems Hash), fresh(elems *rsl.AnnotationEntry), fresh(elems rsl.GetLatestReferenceUpdaterEntryOption), fresh(rsl.GetLatestReferenceUpdaterEntryOptions.*)
+//@   # the tip reported is the target of the latest entry for the reference, and exactly that entry was verified
+//@   ensures tipIsLatestTarget: err == nil ==> old(refSet[rsl.Ref]) && old(hasRefEntry(refTip[rsl.Ref], target)) && tip == pTarget(cmsg(old(latestFor(target))))
+//@   ensures latestVerified: err == nil ==> rangeVerified(old(latestFor(target)), old(latestFor(target)), target)
+
+//@ func [C01] (*PolicyVerifier).VerifyRefFull -> (tip, err)
+//@   requires v != nil && v.repo != nil && (v.persistentCacheEnabled ==> v.persistentCache != nil)
+//@   assigns ghost faults, ghost refTip, ghost refSet, ghost objSet, fresh(rsl.ReferenceEntry.*), fresh(rsl.AnnotationEntry.*), fresh(rsl.PropagationEntry.*), fresh(elems Hash), fresh(elems *rsl.AnnotationEntry), fresh(elems rsl.GetLatestReferenceUpdaterEntryOption), fresh(rsl.GetLatestReferenceUpdaterEntryOptions.*)
+//@   ensures tipIsLatestTarget: err == nil ==> old(refSet[rsl.Ref]) && old(hasRefEntry(refTip[rsl.Ref], target)) && tip == pTarget(cmsg(old(latestFor(target))))
+//@   # everything from the first entry for the reference (or, with the persistent cache, from the entry the cache
+//@   # records as last verified for it) up to the latest entry was verified
+//@   ensures wholeRangeVerified: err == nil ==> notNil(firstEntry) && rangeVerified(firstEntry.GetID(), old(latestFor(target)), target)
+//@   ensures startsAtFirstWithoutCache: err == nil && !v.persistentCacheEnabled ==> firstEntry.GetRefName() == target
+
+//@ func [C01] (*PolicyVerifier).VerifyRefFromEntry -> (tip, err)
+//@   requires v != nil && v.repo != nil
+//@   assigns ghost faults, ghost refTip, ghost refSet, ghost objSet, fresh(rsl.ReferenceEntry.*), fresh(rsl.AnnotationEntry.*), fresh(rsl.PropagationEntry.*), fresh(elems Hash), fresh(elems *rsl.AnnotationEntry), fresh(elems rsl.GetLatestReferenceUpdaterEntryOption), fresh(rsl.GetLatestReferenceUpdaterEntryOptions.*)
+//@   ensures tipIsLatestTarget: err == nil ==> old(refSet[rsl.Ref]) && old(hasRefEntry(refTip[rsl.Ref], target)) && tip == pTarget(cmsg(old(latestFor(target))))
+//@   ensures fromEntryVerified: err == nil ==> rangeVerified(entryID, old(latestFor(target)), target)
+
+//@ # ---- C19: mergeability predictions ----
+//@ func ext:(internal/policy.searcher).FindLatestPolicyEntry -> (e, err)
+//@   trusted
+//@   assigns ghost faults
+//@   ensures err == nil ==> notNil(e)
+//@ func ext:(internal/policy.searcher).FindLatestAttestationsEntry -> (e, err)
+//@   trusted
+//@   assigns ghost faults
+//@   ensures err == nil ==> notNil(e)
+//@ func [C19,C10] (*PolicyVerifier).verifyMergeable -> (needed, err)
+//@   requires v != nil && v.repo != nil && notNil(v.searcher)
+//@   assigns ghost faults, all(State.verifiersCache), fresh(State.*), fresh(StateMetadata.*), fresh(policyopts.LoadStateOptions.*), fresh(attestations.Attestations.*), fresh(SignatureVerifier.*), fresh(elems *SignatureVerifier), fresh(elems tuf.Principal), fresh(elems tuf.Rule), fresh(map map[string][]*SignatureVerifier), fresh(map map[string]bool), fresh(map map[string]tuf.Principal), fresh(gitinterface.Repository.*), fresh(set.Set[string].contents), fresh(map map[string]struct{}), fresh(elems gitobject.Option), fresh(elems sslibdsse.Verifier), fresh(elems sigstoreverifieropts.Option), fresh(elems string), fresh(verifyGitObjectAndAttestationsOptions.*), fresh(rsl.ReferenceEntry.*), fresh(rsl.AnnotationEntry.*), fresh(rsl.PropagationEntry.*), fresh(elems Hash), fresh(elems *rsl.AnnotationEntry), fresh(elems rsl.GetLatestReferenceUpdaterEntryOption), fresh(rsl.GetLatestReferenceUpdaterEntryOptions.*), fresh(elems verifyGitObjectAndAttestationsOption), fresh(elems rsl.ReferenceUpdaterEntry)
+//@   # the answer is the decision of the branch's namespace in mergeability mode, for no object signature (the
+//@   # recorder's is still to come), against the approvals that name exactly the predicted change
+//@   ensures failureSaysNotNeeded: err != nil ==> !needed
+//@   ensures answerIsTheNamespaceDecision: err == nil ==> (exists pol *State, att *sslibdsse.Envelope :: decided(pol, gitTarget(targetRef), nil, att, true, needed) && (att != nil ==> authNamesChange(att, targetRef, fromID.String(), hexstr(mergeTree(fromID, featureID)))) && (pol.hasFileRule ==> (forall k :: 0 <= k && k < cbLen(featureID, fromID) ==> pathsAccepted(pol, cbAt(featureID, fromID, k)))))
+//@   loop 1:
+//@     invariant commitsAre: introducedFrom(commitIDs, featureID, fromID) && currentPolicy.hasFileRule
+//@     invariant commitsDone: forall k :: 0 <= k && k <= rangeindex ==> pathsAccepted(currentPolicy, cbAt(featureID, fromID, k))
+//@     invariant nsDecided: decided(currentPolicy, gitTarget(targetRef), nil, authorizationAttestation, true, rslEntrySignatureNeededForThreshold) && (authorizationAttestation != nil ==> authNamesChange(authorizationAttestation, targetRef, fromID.String(), hexstr(mergeTree(fromID, featureID))))
+//@   loop 2:
+//@     invariant pathsAre: len(paths) == cpLen(commitID) && (forall q :: 0 <= q && q < len(paths) ==> paths[q] == cpAt(commitID, q))
+//@     invariant pathsDone: forall q :: 0 <= q && q <= rangeindex ==> acceptedNormally(currentPolicy, fileTarget(cpAt(commitID, q)), commitID)
+
+//@ func [C19] (*PolicyVerifier).VerifyMergeable -> (needed, err)
+//@   requires v != nil && v.repo != nil && notNil(v.searcher)
+//@   assigns ghost faults, all(State.verifiersCache), fresh(State.*), fresh(StateMetadata.*), fresh(policyopts.LoadStateOptions.*), fresh(attestations.Attestations.*), fresh(SignatureVerifier.*), fresh(elems *SignatureVerifier), fresh(elems tuf.Principal), fresh(elems tuf.Rule), fresh(map map[string][]*SignatureVerifier), fresh(map map[string]bool), fresh(map map[string]tuf.Principal), fresh(gitinterface.Repository.*), fresh(set.Set[string].contents), fresh(map map[string]struct{}), fresh(elems gitobject.Option), fresh(elems sslibdsse.Verifier), fresh(elems sigstoreverifieropts.Option), fresh(elems string), fresh(verifyGitObjectAndAttestationsOptions.*), fresh(rsl.ReferenceEntry.*), fresh(rsl.AnnotationEntry.*), fresh(rsl.PropagationEntry.*), fresh(elems Hash), fresh(elems *rsl.AnnotationEntry), fresh(elems rsl.GetLatestReferenceUpdaterEntryOption), fresh(rsl.GetLatestReferenceUpdaterEntryOptions.*), fresh(elems verifyGitObjectAndAttestationsOption), fresh(elems rsl.ReferenceUpdaterEntry)
+//@   ensures tagsRefused: strings.HasPrefix(targetRef, gitinterface.TagRefPrefix) ==> err == ErrCannotVerifyMergeableForTagRef && !needed
+//@   ensures failureSaysNotNeeded: err != nil ==> !needed
+//@ func [C19] (*PolicyVerifier).VerifyMergeableForCommit -> (needed, err)
+//@   requires v != nil && v.repo != nil && notNil(v.searcher)
+//@   assigns ghost faults, all(State.verifiersCache), fresh(State.*), fresh(StateMetadata.*), fresh(policyopts.LoadStateOptions.*), fresh(attestations.Attestations.*), fresh(SignatureVerifier.*), fresh(elems *SignatureVerifier), fresh(elems tuf.Principal), fresh(elems tuf.Rule), fresh(map map[string][]*SignatureVerifier), fresh(map map[string]bool), fresh(map map[string]tuf.Principal), fresh(gitinterface.Repository.*), fresh(set.Set[string].contents), fresh(map map[string]struct{}), fresh(elems gitobject.Option), fresh(elems sslibdsse.Verifier), fresh(elems sigstoreverifieropts.Option), fresh(elems string), fresh(verifyGitObjectAndAttestationsOptions.*), fresh(rsl.ReferenceEntry.*), fresh(rsl.AnnotationEntry.*), fresh(rsl.PropagationEntry.*), fresh(elems Hash), fresh(elems *rsl.AnnotationEntry), fresh(elems rsl.GetLatestReferenceUpdaterEntryOption), fresh(rsl.GetLatestReferenceUpdaterEntryOptions.*), fresh(elems verifyGitObjectAndAttestationsOption), fresh(elems rsl.ReferenceUpdaterEntry)
+//@   ensures tagsRefused: strings.HasPrefix(targetRef, gitinterface.TagRefPrefix) ==> err == ErrCannotVerifyMergeableForTagRef && !needed
+//@   ensures failureSaysNotNeeded: err != nil ==> !needed
+
+//@ # ---- C01 / C02 / C07 / C08: the range walk VerifyRelativeForRef, one step at a time ----
+//@ # entryOK(policy, atts, e): label "verifyEntry accepted e under this policy state and attestation state"
+//@ spec entryOK(policy *State, atts *attestations.Attestations, e *rsl.ReferenceEntry) bool
+//@ func ext:(internal/policy.searcher).FindPolicyEntryFor -> (e, err)
+//@   trusted
+//@   assigns ghost faults
+//@   ensures err == nil ==> notNil(e)
+//@ func ext:(internal/policy.searcher).FindAttestationsEntryFor -> (e, err)
+//@   trusted
+//@   assigns ghost faults
+//@   ensures err == nil ==> notNil(e)
+//@ func ext:pkg/rsl.GetReferenceUpdaterEntriesInRangeForRef -> (es, anns, err)
+//@   trusted
+//@   assigns ghost faults, fresh(rsl.ReferenceEntry.*), fresh(rsl.AnnotationEntry.*), fresh(rsl.PropagationEntry.*), fresh(elems Hash), fresh(elems *rsl.AnnotationEntry), fresh(elems rsl.ReferenceUpdaterEntry), fresh(map map[string][]*rsl.AnnotationEntry)
+//@   ensures err == nil ==> (forall i :: 0 <= i && i < len(es) ==> notNil(es[i])) && (forall k string :: has(anns, k) ==> rsl.noNil(anns[k]))
+//@ func ext:(*internal/cache.Persistent).InsertPolicyEntryNumber
+//@   trusted
+//@   assigns all(cache.Persistent.PolicyEntries), fresh(elems cache.RSLEntryIndex)
+//@ func ext:(*internal/cache.Persistent).InsertAttestationEntryNumber
+//@   trusted
+//@   assigns all(cache.Persistent.AttestationEntries), all(cache.Persistent.AddedAttestationsBeforeNumber), fresh(elems cache.RSLEntryIndex)
+//@ func ext:(*internal/cache.Persistent).SetLastVerifiedEntryForRef
+//@   trusted
+//@   assigns all(cache.Persistent.LastVerifiedEntryForRef), fresh(map map[string]cache.RSLEntryIndex)
+//@ define stateUsable(st *State) bool = st.Metadata != nil && st.repository != nil && noNilControllers(st) && policyUsable(st)
+//@ define annsOf(anns map[string][]*rsl.AnnotationEntry, e *rsl.ReferenceEntry) []*rsl.AnnotationEntry = anns[e.ID.String()]
+//@ define needsDecision(e rsl.ReferenceUpdaterEntry) bool = notNil(e) && typeIs(e, *rsl.ReferenceEntry) && as(e, *rsl.ReferenceEntry).RefName != PolicyStagingRef && !isGittufManaged(as(e, *rsl.ReferenceEntry).RefName)
